@@ -149,6 +149,23 @@ def gen_history(rng, hid):
         st["attest"] = {"fault": rng.choice(["500", "202", "drop", "403"])} if r < 0.12 else {}
         st["notify"] = rng.random() < 0.15
         h["steps"].append(st)
+    if not h["keydir_is_file"] and rng.random() < 0.25:
+        # the host latches the key but the agent does not get the 200; afterwards the host answers consistently: it names
+        # the latched guid and, like the real host, hands out no other key to an unsigned acquire (403)
+        g = GUIDS[(acq_seq + 1) % len(GUIDS)]
+        kk_ = mk_key(g, inc=rng.choice([None, 3]))
+        v = rng.choice(["1.0", "2.0"])
+        base = {"version": v, "guid": None}
+        if v == "2.0":
+            base.update(enabled=True, rules={"wireserver": pick_item("wireserver"), "imds": None, "hostga": None})
+        else:
+            base["state"] = rng.choice(["Wireserver", "WireserverAndImds"])
+        lost = {"status": {"doc": dict(base), "code": 200}, "acquire": {"key": kk_},
+                "attest": {"fault": rng.choice(["500", "drop", "202"])}, "notify": False}
+        after = [{"status": {"doc": dict(base, guid=g), "code": 200}, "acquire": {"fault": "403", "key": mk_key(GUIDS[(acq_seq + 2) % len(GUIDS)])},
+                  "attest": {}, "notify": False} for _ in range(rng.randint(1, 3))]
+        pos = rng.randint(0, len(h["steps"]))
+        h["steps"][pos:pos] = [lost] + after
     return h
 
 
@@ -174,7 +191,7 @@ def mock_step(st):
         badinc = dict(k, incarnationId=-1)
         out["acquire"] = {"500": {"code": 500, "body": "boom"}, "201": {"code": 201, "body": k}, "notjson": {"code": 200, "body": "{{{{"},
                           "noguid": {"code": 200, "body": noguid}, "badinc": {"code": 200, "body": badinc}, "drop": {"drop": True},
-                          "empty": {"code": 200, "body": ""}}[f]
+                          "empty": {"code": 200, "body": ""}, "403": {"code": 403, "body": "a key is already latched"}}[f]
     else:
         out["acquire"] = {"code": 200, "body": a["key"]}
     t = st["attest"]
@@ -260,6 +277,7 @@ def prop_check(h, obs, computed, local_before):
     functional_ids = True
     functional_guids = True
     applied_report = "Unknown"      # the reported state of the last document whose poll ran to completion
+    attested = {}                   # guid -> key whose attestation request reached the host (so it was stored before)
     for i, (st, o) in enumerate(zip(h["steps"], obs)):
         cur = getters(o)
         s = st["status"]
@@ -313,6 +331,11 @@ def prop_check(h, obs, computed, local_before):
         if disabled:
             clean = True
             exp_key = None
+        elif d.get("guid") in attested:
+            # the agent attested this key earlier (answer received or not): it stored and read it back first, so the
+            # local store holds it whatever the host answers to an acquire now
+            clean = True
+            exp_key = attested[d["guid"]]
         elif named_local:
             clean = True
             exp_key = lb
@@ -339,6 +362,9 @@ def prop_check(h, obs, computed, local_before):
             elif functional_guids:
                 if cur["key_guid"] != exp_key["guid"] or cur["key_value"] != exp_key["key"]:
                     return "step %d: after a clean poll the key in memory is %s, the host names %s" % (i, cur["key_guid"], exp_key["guid"])
+        for rq in o["requests"]:
+            if rq[0] == "attest" and "fault" not in st["acquire"] and rq[1] == st["acquire"]["key"]["guid"]:
+                attested[rq[1]] = st["acquire"]["key"]
         # -- "whenever the reported channel state changes each endpoint is intercepted exactly when
         #     its mode is not disabled" (state before / after the poll; a notify in the group hides it)
         # ... judged by what the DOCUMENTS report: a poll that runs to completion (no failed key step) on a document
